@@ -11,6 +11,7 @@
 // come from the TLA+ specification (they are part of each case); the only comparison made here is structural
 // equality between the projection and the expectation.
 
+mod ast_project;
 mod fam_buffers;
 mod fam_cycles;
 mod fam_driver;
@@ -18,6 +19,7 @@ mod fam_emitter;
 mod fam_files;
 mod fam_options;
 mod fam_preproc;
+mod fam_syntax;
 mod fam_wire;
 mod supervisor;
 mod util;
@@ -87,6 +89,9 @@ pub fn make_family(name: &str) -> Option<Box<dyn Family>> {
         "files" => Some(Box::new(fam_files::Files::default())),
         "emitter" => Some(Box::new(fam_emitter::Emitter::default())),
         "emitbin" => Some(Box::new(fam_emitter::EmitBin::default())),
+        "syntax" => Some(Box::new(fam_syntax::Syntax { mode: "ast" })),
+        "syntax-visit" => Some(Box::new(fam_syntax::Syntax { mode: "visit" })),
+        "syntax-spans" => Some(Box::new(fam_syntax::Syntax { mode: "spans" })),
         "wire" => Some(Box::new(fam_wire::Wire::default())),
         _ => None,
     }
